@@ -100,6 +100,22 @@ func init() {
 		x.cellSet(s, p, 1, one(x))
 		return nil, false
 	}
+	// TryLock / TryRLock never block; they are scheduling points like Lock / RLock. The state of the
+	// lock must be concrete here (it is in every harness: locks are taken on concrete paths).
+	blockingIntrinsics["(*sync.RWMutex).TryLock"] = func(x *Exec, s *State, c *CallCtx) (Value, bool) {
+		x.maybePreempt(s)
+		p := c.Args[0].(*PtrVal)
+		busy := x.tb.Or(x.tb.Not(x.tb.Eq(x.cellGet(s, p, 1), zero(x))), x.tb.Not(x.tb.Eq(x.cellGet(s, p, 2), zero(x))))
+		x.cellSet(s, p, 1, x.tb.Ite(busy, x.cellGet(s, p, 1), one(x)))
+		return x.tb.Not(busy), false
+	}
+	blockingIntrinsics["(*sync.RWMutex).TryRLock"] = func(x *Exec, s *State, c *CallCtx) (Value, bool) {
+		x.maybePreempt(s)
+		p := c.Args[0].(*PtrVal)
+		busy := x.tb.Not(x.tb.Eq(x.cellGet(s, p, 1), zero(x)))
+		x.cellSet(s, p, 2, x.tb.Ite(busy, x.cellGet(s, p, 2), x.tb.Add(x.cellGet(s, p, 2), one(x))))
+		return x.tb.Not(busy), false
+	}
 	RegisterIntrinsic("(*sync.RWMutex).Unlock", func(x *Exec, s *State, c *CallCtx) Value {
 		p := c.Args[0].(*PtrVal)
 		if !x.panicIf(s, x.tb.Eq(x.cellGet(s, p, 1), zero(x)), "sync: Unlock of unlocked RWMutex") {
